@@ -18,6 +18,12 @@ Verdict (VIOLATION) only from the property predicates on real outcomes:
      irclog, output store, canonical server state digest, session set unchanged)
      and reveals no message line (GET .../messages: status >= 400 and no line
      within 300 ms); POST .../session is public by design;
+     and it is REFUSED: never answered 2xx. Session states: fresh, logged in,
+     ended with lookups still answering "not yet seen" (own QUIT was the last
+     processed entry), ended with lookups answering "no such session" (DELETE,
+     or QUIT + a later entry), never existed, not yet seen, and DYNAMIC: the
+     request names the next (predictable) session id, is sent while that session
+     does not exist and is answered after it was created and got traffic;
   P  every request that reaches anything but the public prefix without
      basic auth robustirc:<network password> is answered 401 (and has no effect).
 """
